@@ -12,6 +12,7 @@ clauses file grammar (line oriented; a directive's text continues until the next
     decreases <expr>
     start <stmts>                  at the start of the function body
     loop <N> invariant[ID : tags] <expr>
+    loop <N> ensures[ID : tags] <expr>      (loops left through `break` / `while let`)
     loop <N> decreases <expr>
     loop <N> attr <text>
     loopstart <N>[ID : tags] <stmts>
@@ -171,9 +172,9 @@ def _parse_directive(st, ln, auto):
         n, rest = take_int(rest)
         args["n"] = n
         rest = rest.lstrip()
-        sub = re.match(r"(invariant|decreases|attr|bind)", rest)
+        sub = re.match(r"(invariant|ensures|decreases|attr|bind)", rest)
         if not sub:
-            raise ClauseError("line %d: loop N invariant|decreases|attr|bind" % ln)
+            raise ClauseError("line %d: loop N invariant|ensures|decreases|attr|bind" % ln)
         kind = "loop_" + sub.group(1)
         rest = take_id(rest[sub.end():])
     elif kw in ("loopstart", "loopend"):
@@ -512,7 +513,7 @@ def splice_fn(text, fs: FnSpec):
         return sh.loops[n - 1]
 
     loop_groups = {}
-    for kind in ("loop_invariant", "loop_decreases"):
+    for kind in ("loop_invariant", "loop_ensures", "loop_decreases"):
         for c in by_kind.get(kind, []):
             loop_groups.setdefault(c.args["n"], {}).setdefault(kind, []).append(c)
     for n, g in sorted(loop_groups.items()):
@@ -525,7 +526,7 @@ def splice_fn(text, fs: FnSpec):
         ind = _indent_at(text, lp["start"])
         pos = lp["body_open"]
         first = True
-        for kind, word in (("loop_invariant", "invariant"), ("loop_decreases", "decreases")):
+        for kind, word in (("loop_invariant", "invariant"), ("loop_ensures", "ensures"), ("loop_decreases", "decreases")):
             cs = g.get(kind, [])
             if not cs:
                 continue
